@@ -341,6 +341,8 @@ def run(ctx: Context) -> None:
 
     # the API's "files fixed" answer is the list of 'Fixed:' announcements, in both return-code schemes
     c16.api_results_from_presentation(ctx, "R10f")
+    # 'announced as Fixed' implies the bytes changed: a refused write-back is an error, never swallowed
+    c15.refused_write_back_is_an_error(ctx, "R10g")
     if ctx.tier == "thorough":
         from sa.rules import driver_exploration
 
